@@ -286,7 +286,32 @@ def run_family(prop, clauses, tier, focus, count_quick, count_thorough, sig_fn=N
             xt.append(t_)
     consumed = 0
     if xt:
-        xo, xres = R.validate_exec(xt)
+        # binding test: a few of the same traces with ONE recorded field corrupted (the slot of a spawn, the progress counter
+        # of a line, the task of a completion) must be rejected by the trace specification
+        corrupted = []
+        for t_ in xt[:12]:
+            c = json.loads(json.dumps(t_))
+            c["id"] = 10 ** 6 + t_["id"]
+            done = False
+            for e in c["events"]:
+                if e["e"] == "Spawn" and len(corrupted) % 3 == 0:
+                    e["slot"] = e["slot"] + 1
+                    done = True
+                elif e["e"] == "Running" and len(corrupted) % 3 == 1:
+                    e["k"] = e["k"] + 1
+                    done = True
+                elif e["e"] in ("Success", "Failed") and len(corrupted) % 3 == 2:
+                    e["t"] = e["t"] % c["g"]["n"] + 1
+                    done = True
+                if done:
+                    break
+            if done:
+                corrupted.append(c)
+        xo, xres = R.validate_exec(xt + corrupted)
+        slipped = [c["id"] - 10 ** 6 for c in corrupted if xo[c["id"]][0] == xo[c["id"]][1]]
+        if slipped:
+            rep.machinery("Executor_Trace accepted corrupted copies of traces %s: the trace specification does not bind" % slipped[:5])
+        rep.cov["corrupted_traces_rejected"] = len(corrupted) - len(slipped)
         for t_ in xt:
             reached, n_ = xo[t_["id"]]
             if reached == n_:
